@@ -3,7 +3,7 @@
 # Applies the patch in a scratch worktree of /repo (outside /repo and /verif), runs ./check with
 # VERIF_REPO pointing there, removes the worktree afterwards.
 set -u
-patch="$1"; shift
+patch=$(realpath "$1"); shift
 wt=$(mktemp -d /tmp/vfmut.XXXXXX)
 git -C /repo worktree add -q --detach "$wt" HEAD || exit 9
 if ! git -C "$wt" apply "$patch"; then echo "PATCH-DOES-NOT-APPLY $patch"; git -C /repo worktree remove --force "$wt"; exit 9; fi
